@@ -159,4 +159,15 @@ def specAccepts (defaults file : Val) (env : Env) (r : Val) : Bool :=
         env.any (fun e => parseName e.1 == l.1 && e.2 == l.2)
         || file.get l.1 == .atom l.2 || defaults.get l.1 == .atom l.2)
 
+/-! ## the prefix of the variable names -/
+
+/-- the variables of `env` as the process environment holds them: the prefix (as the loader uses it) in front of every
+    name -/
+def withPrefix (pre : List Char) (env : Env) : ProcEnv := env.map fun e => (pre ++ e.1, e.2)
+
+/-- a variable of the process that does not belong to the configuration: its name does not start with the prefix the
+    operator configured (compared character by character: `DEMOCFG_X` is foreign to the prefix `DemoCfg_`) -/
+def foreignTo (configured : List Char) (e : List Char × String) : Bool :=
+  (stripPrefix? (trimSpace configured) e.1).isNone
+
 end Heimdall.Config
